@@ -123,7 +123,7 @@ def main():
         "engines": [
             {"name": "p2v-inproc", "path": "harness/", "serves_properties": sorted(k for k, v in CHECKS.items() if "inproc" in v[0]),
              "kind_free_text": "Rust harness crate that compiles the real p2sh modules in by path and drives them with proptest (choice-sequence generators) and bounded-exhaustive enumerators, 16 worker processes"},
-            {"name": "p2v-e2e", "path": "harness/", "serves_properties": sorted([k for k, v in CHECKS.items() if "e2e" in v[0]] + [k for k in ("C06", "C08", "C12", "C13", "C15", "C21", "C22") if k in CHECKS]),
+            {"name": "p2v-e2e", "path": "harness/", "serves_properties": sorted([k for k, v in CHECKS.items() if "e2e" in v[0]] + [k for k in ("C06", "C08", "C12", "C13", "C15", "C19", "C21", "C22") if k in CHECKS]),
              "kind_free_text": "same harness driving the real p2sh binary (dev profile, hooks on) as a subprocess with generated scripts, argv, stdin streams"},
         ],
         "checks": checks,
